@@ -8,7 +8,7 @@ FUN = ['FIX8::Logger::operator()()', 'FIX8::Logger::send', 'FIX8::Logger::enqueu
 STUBS = ['ff_unbounded_queue<LogElement>::try_push := append (value, level, text-empty) of the element to an abstract FIFO, returns true; try_pop := scheduling point, then hand out the oldest element rebuilt by the real LogElement constructor; release := count (contract justified by C30)',
          'hypersleep<h_microseconds> := scheduling point with a forced producer step (idle spinning = stuttering)', '_f8_threadcore::join := no-op (the thread body is run by the harness), getid := constant',
          'Logger::process_logline := virtual override in the shim recording (val, level, empty) and a scheduling point; the formatting of the line prefix incl. the sequence number text is outside this check',
-         'std::chrono::system_clock::now := arbitrary non-decreasing instants', 'std::string members, operator new: models/cxx.c']
+         'std::chrono::system_clock::now := arbitrary non-decreasing instants', 'std::string::find_last_not_of(const char*,size_t) / substr := models/c28_env.c (ISO semantics)', 'std::string members, operator new: models/cxx.c']
 LOOP = '_ZN4FIX86LoggerclEv'
 
 def build(ctx):
@@ -20,7 +20,7 @@ def log(ctx, name, nlines, stopmode, tier, defs, timeout=600):
     ctx.add(Harness(name, VERIF + '/harness/C28_log.c', defines=defs + ['NLINES=%d' % nlines, 'STOPMODE=%d' % stopmode, 'VF_MAXCOPY=4'], unwind=4,
                     unwindset=[LOOP + '.0:%d' % nb, 'sched.0:%d' % (nlines + 4), 'sched.1:%d' % (nlines + 4)] + ['main.%d:%d' % (i, nlines + 5) for i in range(5)] + ['vf_copy.0:6'],
                     timeout=timeout, mem_gb=16, functions=FUN, stubs=STUBS, tier=tier,
-                    bounds='%d line(s) submitted through Logger::send by any producers (level enabled/disabled chosen by the solver), stop() %s, every interleaving of producer steps with the logger thread at operation granularity; line text 1 byte' % (
+                    bounds='%d line(s) submitted through Logger::send by any producers (level enabled/disabled chosen by the solver), stop() %s, every interleaving of producer steps with the logger thread at operation granularity; line text symbolic: 1..2 characters over {a, CR, LF}' % (
                         nlines, 'as one atomic call' if stopmode == 0 else 'as its two statements (request_stop; enqueue(marker)) with the logger thread schedulable in between'),
                     desc='every line accepted before stop reaches process_logline exactly once, in order, before the thread ends; submit result; disabled levels'))
 
@@ -45,5 +45,10 @@ def replay(ctx, cx, h=None):
     exe = ctx.native('c28replay', ['replay/c28_replay.cpp'], flags=('-O1', '-g'), libs=['-L' + REPO + '/runtime/.libs', '-lfix8', '-Wl,-rpath,' + REPO + '/runtime/.libs'])
     n = int(c.get('cx_nlines', 2) or 2)
     want = ('ret' if int(c.get('cx_ret_bad', 0) or 0) else '') + ('drop' if int(c.get('cx_dropped', 0) or 0) else '')
-    r = sh([exe, str(n), want or 'any'], cwd=ctx.work)
+    # the texts the solver chose (hex, one argument per submitted line, in submission order); default text "line"
+    t0 = c.get('cx_t0') or []; t1 = c.get('cx_t1') or []; tl = c.get('cx_tlen') or []
+    texts = []
+    for i in range(1, n + 1):
+        if i < len(tl) and int(tl[i]) in (1, 2): texts.append(('%02x' % (int(t0[i]) & 255)) + (('%02x' % (int(t1[i]) & 255)) if int(tl[i]) == 2 else ''))
+    r = sh([exe, str(n), want or 'any'] + texts, cwd=ctx.work)
     return r.returncode != 0, r.stdout.strip()[-500:].replace('\n', ' | ')
